@@ -31,6 +31,7 @@ def runLine (line : String) : Driver.Result :=
   | ["stream", prop, ti, to, proc, reader, writer, ext, impl] =>
     Driver.StreamCase.runStream prop ti to proc reader writer ext impl
   | ["path", _, row, op, path, val, ext, impl] => Driver.PathCase.runPath row op path val ext impl
+  | ["pathdoc", _, doc, path, impl] => Driver.PathCase.runPathDoc doc path impl
   | ["probe", _, what, impl] => Driver.PathCase.runProbe what impl
   | ["jl", _, defs, stdin, ext, y, i, o, l] => Driver.JlCase.runCase defs stdin ext y i o l
   | ["jlbad", _, what, run] => Driver.JlCase.runBad what run
